@@ -482,6 +482,63 @@ def F27_sm_save_temp_suffix_in_place():
     return c08.sm_temp_suffix_finding()
 
 
+# ---------------------------------------------------------------- C15 / F30
+def F30_gmm_estep_underflow_nan():
+    """E-step normalised with `responsibilities /= row_sum + 1e-10`: when every weights[k]*pdf is far below 1e-10 (large data
+    scale in d >= 5) the responsibilities were proportional to the density instead of summing to one, the covariance shrank
+    from iteration to iteration and finally every density underflowed to 0: weights = 0/0 = NaN.  A one-component fit must
+    return the weighted sample mean and covariance."""
+    from tempest.cluster import GaussianMixture
+    X = np.random.RandomState(0).normal(size=(24, 6)) * 3000.0
+    with warnings.catch_warnings():
+        warnings.simplefilter("ignore")
+        try:
+            g = GaussianMixture(n_components=1, random_state=0).fit(X)
+        except Exception as e:  # noqa  (all-NaN parameters can also end in `best_params is None`)
+            return {"fails": True, "detail": f"GaussianMixture(1).fit(N(0,1)^(24x6)*3000) raised {type(e).__name__}: {str(e)[:100]}"}
+        X2 = np.random.RandomState(0).normal(size=(50, 6)) * 30.0
+        g2 = GaussianMixture(n_components=1, random_state=0).fit(X2)
+    w = np.asarray(g.weights_, dtype=float)
+    bad_w = bool(np.any(~np.isfinite(w)) or np.any(w < 0) or abs(float(np.sum(w)) - 1.0) > 1e-12
+                 or np.any(~np.isfinite(g.means_)) or np.any(~np.isfinite(g.covariances_)))
+    # scale 30 never gave NaN, but a covariance collapsed to rank one (eigenvalues ~0 and ~755 instead of ~900 each)
+    S2 = np.cov(X2.T, bias=True)
+    rel = float(np.max(np.abs(np.asarray(g2.covariances_[0]) - S2)) / np.max(np.abs(S2)))
+    bad_c = bool(not np.isfinite(rel) or rel > 1e-6)
+    return {"fails": bad_w or bad_c,
+            "detail": f"GaussianMixture(1).fit(N(0,1)^(24x6)*3000): weights_={w.tolist()}; "
+                      f"GaussianMixture(1).fit(N(0,1)^(50x6)*30): max |cov - sample cov| / max|sample cov| = {rel:.3e}"}
+
+
+# ---------------------------------------------------------------- C09 / F31
+def F31_resume_replays_stream():
+    """`load_sampler_state` reseeds the process-wide stream with the checkpoint's `random_state`, so a seeded run resumed from a
+    checkpoint restarts the stream at position 0 and receives again the numbers the original run consumed in its first
+    iterations.  Visible bit for bit while the checkpointed state is still in warm-up: the first resumed batch of prior draws
+    is an exact copy of the first batch of the run, and both sit in the persistent pool as if independent."""
+    import contextlib
+    import io
+    import tempfile
+    from tempest import Sampler
+
+    def mk(d):
+        return Sampler(lambda u: 8.0 * u - 4.0, lambda x: -0.5 * float(np.sum(x ** 2)), 2, n_particles=32, clustering=False,
+                       sample="rwm", resample="syst", random_state=3, n_steps=1, n_max_steps=2, output_dir=d, output_label="w")
+    with tempfile.TemporaryDirectory() as d, contextlib.redirect_stdout(io.StringIO()), warnings.catch_warnings():
+        warnings.simplefilter("ignore")
+        a = mk(d)
+        a.run(n_total=64, progress=False, save_every=1)
+        b = mk(d)
+        b.run(n_total=64, progress=False, resume_state_path=os.path.join(d, "w_1.state"))
+        u = b.state.get_history("u")
+        beta = np.asarray(b.state.get_history("beta"), dtype=float)
+    dup = bool(len(u) > 1 and np.array_equal(u[1], u[0]))
+    return {"fails": dup,
+            "detail": f"Sampler(random_state=3, n_particles=32, rwm, syst).run(n_total=64, save_every=1), then "
+                      f"run(resume_state_path='w_1.state'): history u[1] == u[0] bit for bit: {dup} "
+                      f"(beta of the two batches: {beta[:2].tolist()})"}
+
+
 ALL = {k: v for k, v in list(globals().items()) if k[:1] == "F" and callable(v)}
 
 if __name__ == "__main__":
